@@ -342,6 +342,11 @@ def gen_program(rng, opts=None):
                         sigs.append({"name": "ctl", "width": 1, "signed": False, "init": 0, "reset_less": False, "role": "ctl"})
                         ctl.append(len(sigs) - 1)
                         m["wrap"].append([kind, r.choice(domains)["name"], len(sigs) - 1])
+    if o.get("wide_controls", True):
+        # an inserter's control may be any value: wider than one bit it is asserted when non-zero, as every condition of the language
+        for ci in ctl:
+            if r.random() < 0.2:
+                sigs[ci]["width"] = 2
     inputs = [i for i, s in enumerate(sigs) if s["role"] in ("input",)]
 
     def readable_for(targets_sig, dom):
